@@ -14,11 +14,12 @@ RULE = (
     "counted, no spin), traffic of the bystanders in both directions, sends that must not reach the victim, and the "
     "victim pipe's Drop flags. Non-trivial: the socket observed the end (an error, or the halves changed). Spec oracle: "
     "bystander traffic unaffected; at most one recv error for the event and Pending afterwards; once observed, no send is "
-    "written to the victim; both halves of the victim are dropped. The (type, event) pairs where the code is wrong are "
-    "known findings (orderly EOF on fair-queue sockets; REQ; write errors in REQ/ROUTER/REP) — any OTHER pair failing is "
-    "a violation."
+    "written to the victim; both halves of the victim are dropped. REQ reads only the peer whose reply it awaits: its cases walk "
+    "the rotation (bystanders pre-loaded with answers) until the victim has been written to and awaited twice. The "
+    "(type, event) pairs that failed on the pinned tree (orderly EOF on the six fair-queue sockets — D12; REQ, and write "
+    "errors in REQ/ROUTER/REP — D13) were repaired; every pair is now required to hold."
 )
-ASSUMPTIONS = ["descriptor release is observed through the pipe halves' Drop flags (thorough: /proc/self/fd over real TCP), not modelled",
+ASSUMPTIONS = ["descriptor release is observed through the pipe halves' Drop flags not modelled",
                "PUB notices a dead subscriber through its reader task; its write-side detection (only at the high-water mark) is outside the statement"]
 TRUSTED = ["asynchronous-codec FramedRead2 EOF handling (modelled): EOF with leftover bytes yields the same error on every poll"]
 SHRINK = False
@@ -66,10 +67,21 @@ def build(t, cutname, event, n, nby):
     sc.add(f"poll {f}", f"drop {f}", "wire 1", "drain")
     # the socket gets its chances to observe the end
     recvs = []
-    if t in wg.CAN_RECV:
-        if t == "REQ":
+    if t == "REQ":
+        # REQ reads only from the peer whose reply it awaits: walk the rotation (the bystanders have their answers
+        # waiting) often enough for the victim to be written to and awaited twice — data that arrived before the
+        # failure is still delivered first — so that the socket does get to observe the end
+        cycles = 2 * (nby + 1) + 1
+        for b in range(2, 2 + nby):
+            for i in range(cycles):
+                sc.reveal_msg(b, [b"", b"ans%d-%d" % (b, i)])
+        for i in range(cycles):
             g = sc.fut()
-            sc.add(f"send {g} 1 {wg.mtok([b'q'])}", f"poll {g}", f"drop {g}")
+            sc.add(f"send {g} 1 {wg.mtok([b'q%d' % i])}", f"poll {g}", f"drop {g}")
+            g = sc.fut()
+            sc.add(f"recv {g} 1", f"poll {g}", f"drop {g}")
+            recvs.append(g)
+    elif t in wg.CAN_RECV:
         for _ in range(4):
             g = sc.fut()
             sc.add(f"recv {g} 1", f"poll {g}", f"drop {g}")
@@ -172,7 +184,9 @@ def oracle(case, lines):
         return f"recv reported the victim's {event} {nerr} times: {recv_errs}"
     observed = nerr > 0 or res[-1][1] != "halves r=0 w=0" or any(l.startswith("ready err Codec.Io") for l in errs)
     if event == "eof" and t in wg.CAN_RECV:
-        observed = True  # the socket polled the stream after the EOF
+        observed = True  # the socket polled the stream after the EOF (REQ: it awaited the victim's reply)
+    if t == "REQ":
+        observed = True  # the rotation was walked until the victim was written to and its reply awaited
     if event in ("rderr", "protoerr") and t in wg.CAN_RECV and t != "REQ":
         observed = True
     if t == "PUB" and event in ("eof", "rderr", "protoerr"):
